@@ -5,8 +5,8 @@
    for objects in a clean state: every subfield / data element that is not set is as new. Clean is the invariant of
    the objects the library builds: new objects are clean, and Unpack (also a failing one) and UnsetField keep it
    (C10_*_clean), the setters by id, Message.Marshal of any struct (whatever its outcome) and every accepted
-   Message.UnmarshalJSON (C10_marshal_clean, C10_json_clean); for unset by path and failing JSON documents it is
-   checked by the correspondence on histories, not proved. This rests on the repairs F12 (presence sets are reset), F28 (what was set is re-created)
+   Message.UnmarshalJSON and UnsetFields by path (C10_marshal_clean, C10_json_clean, C10_unset_path_clean); for failing
+   JSON documents (the state then depends on Go's map order) it is not claimed. This rests on the repairs F12 (presence sets are reset), F28 (what was set is re-created)
    and F30 (what failed is re-created); track fields: model and search only. *)
 From Iso Require Import Model.Base Model.Padding Model.Encoding Model.Prefix Model.Bitmap Model.Spec Model.Field Model.Message
      Proofs.BaseLemmas Proofs.FieldProofs Proofs.CompositeProofs Proofs.MessageRoundtrip Proofs.IndependenceProofs Properties.C01.
@@ -60,6 +60,11 @@ Print Assumptions C10_marshal_clean.
 Theorem C10_json_clean : forall S kvs m m', msg_clean S m -> m_from_json S m kvs = (m', Ok tt) -> msg_clean S m'.
 Proof. exact m_from_json_clean. Qed.
 Print Assumptions C10_json_clean.
+
+Theorem C10_unset_path_clean : forall S m path, NoDup (map fst (ms_fields S)) -> (forall i s, In (i, s) (ms_fields S) -> 2 <= i) ->
+  msg_clean S m -> msg_clean S (fst (m_unset_path S m path)).
+Proof. exact m_unset_path_clean. Qed.
+Print Assumptions C10_unset_path_clean.
 
 (* a tagged composite that was populated with both subfields and is then used to unpack only one of them shows
    exactly that one (the F12 scenario), and holds nothing of what it held before (F28: Unpack discards the
